@@ -230,12 +230,32 @@ impl<L: Localize> OpeningHours<L> {
         let naive_from = std::cmp::min(DATE_END, locale.naive(from));
         let naive_to = std::cmp::min(DATE_END, locale.naive(to));
 
-        self.iter_range_naive(naive_from, naive_to).map(move |dtr| {
-            DateTimeRange::new_with_sorted_comments(
-                locale.datetime(dtr.range.start)..locale.datetime(dtr.range.end),
-                dtr.kind,
-                dtr.comments,
-            )
+        // A local time span that does not exist (clocks were set forward over it) would be
+        // localized to an empty interval: it is skipped and its neighbours, which then share the
+        // same state, are merged.
+        let mut naive_ranges = {
+            let locale = locale.clone();
+
+            self.iter_range_naive(naive_from, naive_to)
+                .filter(move |dtr| locale.naive(locale.datetime(dtr.range.start)) < dtr.range.end)
+                .peekable()
+        };
+
+        std::iter::from_fn(move || {
+            let mut curr = naive_ranges.next()?;
+
+            // Only a skipped span separates two ranges of the same state.
+            while let Some(next) = naive_ranges
+                .next_if(|next| next.kind == curr.kind && curr.range.end <= next.range.start)
+            {
+                curr.range.end = next.range.end;
+            }
+
+            Some(DateTimeRange::new_with_sorted_comments(
+                locale.datetime(curr.range.start)..locale.datetime(curr.range.end),
+                curr.kind,
+                curr.comments,
+            ))
         })
     }
 
